@@ -16,7 +16,7 @@ import logging
 from collections.abc import Iterator, Sequence
 from contextlib import AbstractContextManager
 from dataclasses import dataclass, field
-from typing import Any, Callable, Optional
+from typing import Any, Callable, Optional, Union
 
 import asynq
 import qcore
@@ -154,6 +154,15 @@ class VarnameGenerator:
                 if self.is_available(next_varname):
                     return next_varname
         assert False, "unreachable"
+
+
+def _usage_key(node: Union[ast.Name, ast.Attribute]) -> Optional[str]:
+    """The name under which YieldChecker.record_usage() sees this node."""
+    if isinstance(node, ast.Name):
+        return node.id
+    if isinstance(node.value, ast.Name):
+        return f"{node.value.id}.{node.attr}"
+    return None
 
 
 @dataclass
@@ -444,6 +453,10 @@ class YieldChecker:
                 # this probably means the one is in a try-except
                 if first_yield.get_indentation() != second_yield.get_indentation():
                     return None
+                # a use as the value of an augmented assignment (x += a) does not count
+                # as a use for the check, but the first yield cannot be moved past it
+                if self._is_result_used_between(first_yield, second_yield):
+                    return None
                 # if there is intervening code, first move the first yield to right before the
                 # second one
                 to_delete = list(
@@ -523,6 +536,30 @@ class YieldChecker:
                 range(first_yield.line_range[0], second_yield.line_range[-1] + 1)
             )
             return Replacement(linenos_to_delete, lines_to_add)
+
+    def _is_result_used_between(
+        self, first_yield: YieldInfo, second_yield: YieldInfo
+    ) -> bool:
+        """Whether code between the two yield statements reads a target of the first one."""
+        tree = self.visitor.tree
+        if tree is None:
+            return False
+        targets = {
+            _usage_key(node)
+            for node in ast.walk(first_yield.statement_node)
+            if isinstance(node, (ast.Name, ast.Attribute))
+            and isinstance(node.ctx, ast.Store)
+        }
+        targets.discard(None)
+        start = first_yield.line_range[-1]
+        end = second_yield.line_range[0]
+        return any(
+            isinstance(node, (ast.Name, ast.Attribute))
+            and isinstance(node.ctx, ast.Load)
+            and start < node.lineno < end
+            and _usage_key(node) in targets
+            for node in ast.walk(tree)
+        )
 
     def _move_out_var_from_yield(
         self, yield_info: YieldInfo, indentation: int
